@@ -1,6 +1,258 @@
 import PdeVerif.Json
+import PdeVerif.Model.Cache
 namespace PdeVerif.Drv.C04
-open Lean PdeVerif
+open Lean PdeVerif PdeVerif.Cache
 
-def handlers : List (String × Handler) := []
+/-! JSON <-> object graphs -/
+
+def hexVal (c : Char) : Except String Nat :=
+  if '0' ≤ c ∧ c ≤ '9' then pure (c.toNat - 48)
+  else if 'a' ≤ c ∧ c ≤ 'f' then pure (c.toNat - 87)
+  else throw s!"bad hex digit {c}"
+
+def parseHexList : List Char → Except String (List Nat)
+  | [] => pure []
+  | [_] => throw "odd hex length"
+  | a :: b :: rest => do
+    let x ← hexVal a
+    let y ← hexVal b
+    let r ← parseHexList rest
+    pure ((16 * x + y) :: r)
+
+def parseHex (s : String) : Except String (List Nat) := parseHexList s.toList
+
+/-- big integers travel as JSON numbers or decimal strings -/
+def getBigI (j : Json) : Except String Int :=
+  match j with
+  | .str s => match s.toInt? with
+    | some i => pure i
+    | none => throw s!"bad integer {s}"
+  | _ => j.getInt?
+
+def fldBigI (j : Json) (k : String) : Except String Int := do getBigI (← fld j k)
+
+partial def parsePy (j : Json) : Except String PyObj := do
+  let t ← fldS j "t"
+  match t with
+  | "none" => pure .none
+  | "bool" => pure (.bool (← fldB j "b"))
+  | "num" => do
+    let v ← fld j "v"
+    let k ← fldS v "k"
+    let nv : NumVal ← (match k with
+      | "fin" => do pure (NumVal.fin (← fldBigI v "m") (← fldBigI v "e"))
+      | "inf" => do pure (NumVal.inf (← fldB v "neg"))
+      | "cplx" => do pure (NumVal.cplx (← fldBigI v "rm") (← fldBigI v "re") (← fldBigI v "im") (← fldBigI v "ie") (← fldS v "txt"))
+      | "nan" => do pure (NumVal.nan (← fldN v "id"))
+      | _ => throw s!"unknown number kind {k}")
+    pure (.num (← fldS j "cls") (← fldS j "repr") nv)
+  | "str" => pure (.str (← fldS j "s"))
+  | "bytes" => pure (.bytes (← parseHex (← fldS j "h")))
+  | "tuple" => pure (.tuple (← getL parsePy (← fld j "l")))
+  | "list" => pure (.list (← getL parsePy (← fld j "l")))
+  | "dict" => pure (.dict (← getL parsePair (← fld j "l")))
+  | "odict" => pure (.odict (← getL parsePair (← fld j "l")))
+  | "nd" => pure (.ndarray (← fldS j "dtype") (← fldNs j "shape") (← parseHex (← fldS j "h")))
+  | "slice" => pure (.slice (← parsePy (← fld j "a")) (← parsePy (← fld j "b")) (← parsePy (← fld j "c")))
+  | "atom" => pure (.atom (← fldS j "tag"))
+  | "hobj" => pure (.hobj (← fldS j "cls") (← parsePy (← fld j "ch")))
+  | "grid" => pure (.gridObj (← fldS j "cls") (← parsePy (← fld j "ch")))
+  | "obj" => pure (.obj (← fldS j "cls") (← fldB j "eq") (← fldN j "id") (← getL parsePair (← fld j "attrs")))
+  | _ => throw s!"unknown object tag {t}"
+where
+  parsePair (p : Json) : Except String (String × PyObj) := do
+    let a ← p.getArr?
+    match a.toList with
+    | [k, v] => pure (← k.getStr?, ← parsePy v)
+    | _ => throw "bad pair"
+
+/-! specifications of the modelled graphs -/
+
+def parseNum (j : Json) : Except String (Int × Int) := do
+  let a ← j.getArr?
+  match a.toList with
+  | [m, e] => pure (← getBigI m, ← getBigI e)
+  | _ => throw "bad number pair"
+
+/-- [cls, repr, m, e] -/
+def parseFloatSpec (j : Json) : Except String FloatSpec := do
+  let a ← j.getArr?
+  match a.toList with
+  | [c, r, m, e] => pure { cls := ← c.getStr?, repr := ← r.getStr?, m := ← getBigI m, e := ← getBigI e }
+  | _ => throw "bad float spec"
+
+def parseGrid (j : Json) : Except String GridSpec := do
+  let bs ← getL (fun b => do
+    let a ← b.getArr?
+    match a.toList with
+    | [lo, hi] => pure (← parseFloatSpec lo, ← parseFloatSpec hi)
+    | _ => throw "bad bounds") (← fld j "bounds")
+  pure { cls := ← fldS j "cls", shape := ← fldNs j "shape", bounds := bs,
+         periodic := ← getL getB (← fld j "periodic") }
+
+def parseArr (j : Json) : Except String ArrSpec := do
+  match j with
+  | .null => pure default
+  | _ => pure { dtype := ← fldS j "dtype", shape := ← fldNs j "shape", bytes := ← parseHex (← fldS j "h") }
+
+def parseBCClass (s : String) : Except String BCClass :=
+  match s with
+  | "DirichletBC" => pure .DirichletBC | "NeumannBC" => pure .NeumannBC
+  | "MixedBC" => pure .MixedBC | "CurvatureBC" => pure .CurvatureBC
+  | "NormalDirichletBC" => pure .NormalDirichletBC | "NormalNeumannBC" => pure .NormalNeumannBC
+  | "NormalMixedBC" => pure .NormalMixedBC | "NormalCurvatureBC" => pure .NormalCurvatureBC
+  | "_PeriodicBC" => pure .PeriodicBC | "UserBC" => pure .UserBC
+  | _ => throw s!"unmodelled BC class {s}"
+
+def optB (j : Json) (k : String) : Bool :=
+  match fldOpt j k with
+  | some (.bool b) => b
+  | _ => false
+
+def parseBC (j : Json) : Except String BCSpec := do
+  pure { cls := ← parseBCClass (← fldS j "cls"), grid := ← parseGrid (← fld j "grid"),
+         axis := ← fldN j "axis", upper := ← fldB j "upper", rank := ← fldN j "rank",
+         shapeTensor := ← fldNs j "shape_tensor", shapeBoundary := ← fldNs j "shape_boundary",
+         value := ← parseArr ((fldOpt j "value").getD .null), homogeneous := optB j "homogeneous",
+         valueIsLinked := optB j "linked", const := ← parseArr ((fldOpt j "const").getD .null),
+         flipSign := optB j "flip" }
+
+def parseAxis (j : Json) : Except String AxisSpec := do
+  pure { periodic := ← fldB j "periodic", low := ← parseBC (← fld j "low"), high := ← parseBC (← fld j "high") }
+
+def parseBcs (j : Json) : Except String BcsSpec := do
+  pure { grid := ← parseGrid (← fld j "grid"), rank := ← fldN j "rank",
+         axes := ← getL parseAxis (← fld j "axes") }
+
+def parseOp (j : Json) : Except String OpSpec := do
+  pure { factoryId := ← fldS j "factory", rankIn := ← fldN j "rank_in", rankOut := ← fldN j "rank_out",
+         name := ← fldS j "name" }
+
+def parseKw (j : Json) : Except String (List (String × PyObj)) :=
+  getL (fun p => do
+    let a ← p.getArr?
+    match a.toList with
+    | [k, v] => pure (← k.getStr?, ← parsePy v)
+    | _ => throw "bad kwarg") j
+
+def parseReq (j : Json) : Except String OpReq := do
+  pure { grid := ← parseGrid (← fld j "grid"), op := ← parseOp (← fld j "op"),
+         bcs := ← parseBcs (← fld j "bcs"), dtype := ← parsePy (← fld j "dtype"),
+         kwargs := ← parseKw (← fld j "kwargs") }
+
+def jB (b : Bool) : Json := Json.bool b
+
+/-- key equality of two graphs under the current derivation and the three earlier ones -/
+def eqAll (a b : PyObj) : List (String × Json) :=
+  [("cur", jB (hashMutableG .cur a = hashMutableG .cur b)),
+   ("oldF1", jB (hashMutableG .beforeF1 a = hashMutableG .beforeF1 b)),
+   ("oldA", jB (hashMutableG .beforeA a = hashMutableG .beforeA b)),
+   ("oldB", jB (hashMutableG .beforeB a = hashMutableG .beforeB b)),
+   ("oldD", jB (hashMutableG .beforeD a = hashMutableG .beforeD b))]
+
+/-- {"a": graph, "b": graph} -> key equality under the current and the old derivations -/
+def keyEq (j : Json) : Except String Json := do
+  let a ← parsePy (← fld j "a")
+  let b ← parsePy (← fld j "b")
+  pure (Json.mkObj (eqAll a b))
+
+/-- {"kind": "grid"|"bc"|"bcs"|"req", "a": spec, "b": spec, "ga": graph, "gb": graph}:
+key equality of the graphs the *model* builds from the specifications (the objects the
+theorems are about), and whether those graphs have the same key as the serialised real
+objects -/
+def specEq (j : Json) : Except String Json := do
+  let kind ← fldS j "kind"
+  let build : Json → Except String PyObj := fun s => do
+    match kind with
+    | "grid" => pure (gridGraph (← parseGrid s))
+    | "bc" => pure (bcGraph (← parseBC s))
+    | "bcs" => pure (bcsGraph (← parseBcs s))
+    | "req" => do
+      let r ← parseReq s
+      pure (.tuple [.tuple (opReqArgs r), .dict (opReqKwargs r)])
+    | _ => throw s!"unknown kind {kind}"
+  let a ← build (← fld j "a")
+  let b ← build (← fld j "b")
+  let ga ← parsePy (← fld j "ga")
+  let gb ← parsePy (← fld j "gb")
+  let same (x y : PyObj) : Bool :=
+    hashMutableG .cur x = hashMutableG .cur y ∧ hashMutableG .beforeF1 x = hashMutableG .beforeF1 y ∧
+    hashMutableG .beforeA x = hashMutableG .beforeA y ∧ hashMutableG .beforeB x = hashMutableG .beforeB y ∧
+    hashMutableG .beforeD x = hashMutableG .beforeD y
+  pure (Json.mkObj (eqAll a b ++ [("match_a", jB (same a ga)), ("match_b", jB (same b gb))]))
+
+/-- {"nums": [[m, e], ...]} -> CPython hash values of the numbers m*2^e -/
+def numHash (j : Json) : Except String Json := do
+  let l ← getL parseNum (← fld j "nums")
+  pure (Json.arr (l.map (fun x => Json.str (toString (pyHashNum x.1 x.2)))).toArray)
+
+/-- {"objs": [graph, ...]} -> builtin `hash` of leaves whose key is an integer (else null) -/
+def leafHash (j : Json) : Except String Json := do
+  let l ← getL parsePy (← fld j "objs")
+  pure (Json.arr (l.map (fun o => match builtinKey .cur o with
+    | .leaf (.int h) => Json.str (toString h)
+    | _ => Json.null)).toArray)
+
+/-- replay of a history on the `_class_cache` machine of ONE instance.
+{"cap": null|n, "ignore": {method: [names]}, "events": [ {"ev":"call","name":..,"args":[graphs],
+ "kwargs":[[k,graph]..],"extra":[graphs]} | {"ev":"drop"} ]}
+The "semantics" of a request is its index in the event list (what a compute would return if
+it returned a fresh token): the answer list tells for every call which earlier compute's
+result it returns, i.e. hits and misses. -/
+def replayCache (j : Json) : Except String Json := do
+  let cap : Option Nat ← (match fldOpt j "cap" with
+    | some .null | none => pure none
+    | some v => do pure (some (← getN v)))
+  let evs ← (← fld j "events").getArr?
+  let ign := fldOpt j "ignore"
+  let mut parsed : List (Ev (Nat × Key)) := []
+  let mut idx := 0
+  for e in evs.toList do
+    let kind ← fldS e "ev"
+    if kind == "drop" then
+      parsed := parsed ++ [Ev.drop]
+    else if kind == "nop" then
+      pure ()
+    else
+      let name ← fldS e "name"
+      let args ← getL parsePy (← fld e "args")
+      let kwargs ← parseKw (← fld e "kwargs")
+      let extra ← getL parsePy (← fld e "extra")
+      let ignore : List String := match ign with
+        | some o => match o.getObjVal? name with
+          | .ok a => match getL getS a with | .ok l => l | .error _ => []
+          | .error _ => []
+        | none => []
+      parsed := parsed ++ [Ev.call name (idx, cacheKey ignore extra args kwargs)]
+    idx := idx + 1
+  let out := runEvents (κ := Key) (V := Nat) cap (fun _ r => r.2) (fun _ r => r.1) none parsed
+  pure (toJson out)
+
+/-- replay of a heap history of one field.
+{"inval": bool, "check": bool, "init": q, "events": [["write", q] | ["relink"] | ["assign_new", q] |
+ ["assign_same"] | ["interp", kwargs] | ["rate"]]} -> values read (exact rationals as text) + reference values -/
+def replayHeap (j : Json) : Except String Json := do
+  let inval ← fldB j "inval"
+  let check ← fldB j "check"
+  let init ← fldS j "init"
+  let evs ← (← fld j "events").getArr?
+  let mut parsed : List (HEv Key String) := []
+  for e in evs.toList do
+    let a ← e.getArr?
+    match a.toList with
+    | [Json.str "write", v] => parsed := parsed ++ [HEv.write (← v.getStr?)]
+    | [Json.str "relink"] => parsed := parsed ++ [HEv.relink]
+    | [Json.str "assign_new", v] => parsed := parsed ++ [HEv.assignNew (← v.getStr?)]
+    | [Json.str "assign_same"] => parsed := parsed ++ [HEv.assignSame]
+    | [Json.str "rate"] => parsed := parsed ++ [HEv.rate]
+    | [Json.str "interp", kw] =>
+      parsed := parsed ++ [HEv.interp (cacheKey [] [] [] (← parseKw kw))]
+    | _ => throw s!"bad heap event {e.compress}"
+  let got := hrun ⟨inval, check⟩ (newField (κ := Key) init) parsed
+  let ref := href init parsed
+  pure (Json.mkObj [("read", toJson got), ("ref", toJson ref)])
+
+def handlers : List (String × Handler) :=
+  [("c04.keyeq", keyEq), ("c04.speceq", specEq), ("c04.numhash", numHash),
+   ("c04.leafhash", leafHash), ("c04.replay_cache", replayCache), ("c04.replay_heap", replayHeap)]
 end PdeVerif.Drv.C04
